@@ -734,6 +734,11 @@ func (x *Exec) load(st *State, addr Val, t types.Type) Val {
 		return st.loadField(nil, a.Ref, a.S, a.SN, a.Idx)
 	case ElemPtr:
 		return st.loadElem(nil, a.Arr, a.Idx, a.Elem)
+	case ElemFieldPtr:
+		keys, sorts, typs := st.elemKeys(a.Elem)
+		r := tSelect(tSelect(st.elemArr(nil, keys[a.Field], sorts[a.Field]), a.Arr), a.Idx)
+		r.Typ = typs[a.Field]
+		return r
 	case GlobalPtr:
 		gt := a.G.Type().(*types.Pointer).Elem()
 		if su, ok := under(gt).(*types.Struct); ok {
@@ -781,6 +786,15 @@ func (x *Exec) store(st *State, fr *Frame, addr Val, v Val, t types.Type, at ssa
 		st.storeField(a.Ref, a.S, a.SN, a.Idx, v)
 	case ElemPtr:
 		st.storeElem(a.Arr, a.Idx, a.Elem, v)
+	case ElemFieldPtr:
+		keys, sorts, _ := st.elemKeys(a.Elem)
+		k := a.Field
+		arr := st.elemArr(nil, keys[k], sorts[k])
+		inner := tStore(tSelect(arr, a.Arr), a.Idx, st.asTerm(v, nil))
+		st.x.symCounter++
+		name := fmt.Sprintf("E_%s!%d", sanitize(keys[k]), st.x.symCounter)
+		st.emit("(define-fun " + name + " () " + arr.Sort + " " + tStore(arr, a.Arr, inner).S + ")")
+		st.heap[keys[k]] = Term{S: name, Sort: arr.Sort}
 	case GlobalPtr:
 		gt := a.G.Type().(*types.Pointer).Elem()
 		if su, ok := under(gt).(*types.Struct); ok {
@@ -817,7 +831,7 @@ func (x *Exec) fieldAddr(st *State, base Val, bt types.Type, field int) Val {
 	case GlobalPtr:
 		return FieldPtr{Ref: st.globalRef(b.G), S: su, SN: structName(pt), Idx: field}
 	case ElemPtr:
-		panic(unsupported{"address of a field of a slice element"})
+		return ElemFieldPtr{Arr: b.Arr, Idx: b.Idx, Elem: b.Elem, Field: field}
 	}
 	panic(unsupported{fmt.Sprintf("FieldAddr on %T", base)})
 }
